@@ -133,11 +133,37 @@ Section Explore.
     || existsb (enabled_b s) [ITick TkFlush; ITick TkCap; ITick TkAudit]
     || match n_act n with Some _ => true | None => false end.
 
+  (* does the attempt counter of [obj] matter to anything other than batch [bid] at this
+     instant?  MakeAttempt is read by Enqueue's validation and by callbacks, and written by
+     the goroutine of every batch holding the object; batches are formed from the buffer *)
+  Definition has_obj (obj : nat) (l : list op) : bool := existsb (fun o => Nat.eqb (o_obj o) obj) l.
+
+  Definition obj_elsewhere (n : node) (bid obj : nat) : bool :=
+    let s := n_state n in
+    has_obj obj (buffer s) || has_obj obj (map fst (counted s)) || has_obj obj (waiting s)
+    || has_obj obj (woken s) || existsb (fun p => has_obj obj (snd p)) (cy_open s)
+    || match n_act n with Some (AEnqueue e) => Nat.eqb (e_obj e) obj | _ => false end
+    || existsb (fun b2 => negb (Nat.eqb (b_id b2) bid) && negb (b_entered b2) && has_obj obj (b_ops b2))
+               (batches s).
+
   (* steps that commute with every other step of the instant are taken at once:
      partial-order reduction, see DESIGN.md 2.6 *)
   Definition eager_ok (n : node) (l : label) : bool :=
     match l with
-    | IBatchStart _ => match n_act n with Some (AEnqueue _) => false | _ => true end
+    | IBatchStart b =>
+        match find_batch b (batches (n_state n)) with
+        | Some bt => match nth_error (b_ops bt) (b_bumped bt) with
+                     | Some o => negb (obj_elsewhere n b (o_obj o))
+                     | None => true
+                     end
+        | None => true
+        end
+    | ICbEnter b =>
+        match find_batch b (batches (n_state n)) with
+        | Some bt => negb (existsb (fun o => obj_elsewhere n b (o_obj o)) (b_ops bt))
+        | None => true
+        end
+    | IEnqRetry _ | IEnqInsert _ => shut (n_state n)   (* after shutdown a caller only gets its error *)
     | ICbReturn _ => true
     | ITick k => negb (t_pending (get_ticker (n_state n) k))
     | IBatchDone _ => negb (loop_busy n)
@@ -165,6 +191,27 @@ Section Explore.
     | x :: r => match f x with Some y => y :: filter_map f r | None => filter_map f r end
     end.
 
+  (* While the loop walks the buffer, a MakeAttempt / callback entry that has to be
+     ordered against other uses of the same operation object can be postponed to the
+     end of the cycle without losing behaviours: the loop never reads attempt counters,
+     and the only way a callback feeds back into the cycle is by returning at once and
+     freeing a batch slot (V2 with a slot limit, zero-duration callback). *)
+  Definition in_cycle (s : state) : bool :=
+    match loop s with LCycle | LCycleEnd => true | _ => false end.
+
+  Definition postponed (n : node) (l : label) : bool :=
+    let s := n_state n in
+    match l with
+    | IBatchStart b | ICbEnter b =>
+        in_cycle s &&
+        match find_batch b (batches s) with
+        | Some bt => (c_maxconc c =? 0)%nat
+                     || match b_ops bt with o :: _ => 0 <? o_dur o | [] => true end
+        | None => false
+        end
+    | _ => false
+    end.
+
   Definition succs (n : node) : list node :=
     let cands := candidates c (n_state n) in
     match first_eager n cands with
@@ -174,7 +221,7 @@ Section Explore.
          | Some a => match try_label n a true with Some n' => [n'] | None => [] end
          | None => []
          end)
-        ++ filter_map (fun l => try_label n l false) cands
+        ++ filter_map (fun l => if postponed n l then None else try_label n l false) cands
     end.
 
   Definition sample_ok (s : state) (sm : option sample) : bool :=
